@@ -97,6 +97,18 @@ def rule_bounded_read(ctx, cd):
                     c2 = cond.replace(" ", "")
                     mlt = re.search(r"offset_bits[^<>]*<=?capacity_bits|capacity_bits>=?\(?offset_bits", c2)
                     okc = mlt is not None
+                    if okc:
+                        # ... and by the right amount: the cursor strictly below the capacity, or cursor + (a positive number of
+                        # bits) not above it.  `offset_bits <= capacity_bits` lets the byte behind the buffer be read when the
+                        # cursor stands at its end
+                        strict = re.search(r"(?<![+\w])\(?offset_bits\)?<capacity_bits|capacity_bits>\(?offset_bits\)?(?![+\w])", c2)
+                        plus = re.search(r"\(?offset_bits\+(\w+)\)?<=capacity_bits|capacity_bits>=\(?offset_bits\+(\w+)\)?", c2)
+                        okc = strict is not None
+                        if not okc and plus is not None:
+                            k = plus.group(1) or plus.group(2)
+                            mk = re.fullmatch(r"(\d+)U?L?L?", k)
+                            mp_ = re.fullmatch(r"(Pz\d+z)U?L?L?", k)
+                            okc = (mk is not None and int(mk.group(1)) >= 1) or (mp_ is not None and (p.xs_of(mp_.group(1)) or "") in ("t.bit_length",))
                 okz = els is not None and re.search(r"= ?(0U?|Pz\d+z) ?;", els) is not None
                 if okz and els is not None:
                     mm = re.search(r"= ?(Pz\d+z) ?;", els)
